@@ -30,6 +30,7 @@ Elems(sq) == {sq[i] : i \in DOMAIN sq}
 Inner(m) == CASE m.kind = "replicate" -> "replicate d " \o m.k \o " " \o ToString(m.ver) \o " " \o m.v
               [] m.kind = "replicate-remove" -> "replicate-remove d " \o m.k
               [] m.kind = "replicate-increment" -> "replicate-increment d " \o m.k \o " " \o ToString(m.d)
+              [] m.kind = "replicate-snapshot" -> "replicate-snapshot d false"
 ReqLine(m) == IF "rp" \in DOMAIN m THEN "rp " \o Inner(m) ELSE Inner(m)
 RspLine(a) == IF a.ack > 0 THEN "ack " \o a.from ELSE "noise"
 
